@@ -1492,7 +1492,11 @@ impl<'a, 'b> InternalDelphiLogicalLineParser<'a, 'b> {
         }
 
         let paren_level = self.paren_level;
-        while !(matches!(self.get_token_type::<-1>(), Some(TT::Op(OK::RParen)))
+        let start_index = self.pass_index;
+        // The opening paren must be consumed before the list can be considered closed, otherwise
+        // a preceding `)` ends the loop without progress and the caller never advances.
+        while !(self.pass_index > start_index
+            && matches!(self.get_token_type::<-1>(), Some(TT::Op(OK::RParen)))
             && paren_level >= self.paren_level)
         {
             match self.get_current_token_type() {
